@@ -99,11 +99,13 @@ int main(void) {
 					size_t j, cnt = VECTOR_LENGTH(att);
 					printf("A%zu", cnt);
 					for (j = 0; j < cnt; j++) {
-						const char *b;
+						/* body first: message_write reorders the header table */
+						const char *b = message_get_body(att[j]);
+						char *bc = b ? strdup(b) : NULL;
 						write_out(att[j], ",");
-						b = message_get_body(att[j]);
 						putchar(';');
-						if (b == NULL) putchar('N'); else puthexstr(b);
+						if (bc == NULL) putchar('N'); else puthexstr(bc);
+						free(bc);
 					}
 					message_free_attachments(att);
 				}
